@@ -126,3 +126,89 @@ pub fn tree_hash_ground() -> crate::eval::EvalResult {
     res.samples.push(json!({"obligation": format!("{} ground comparisons: {} atoms around every length boundary of the canonical encoding x 3 tree shapes, every routine vs the definition", res.obligations, atoms.len()), "backend": "native-eval"}));
     res
 }
+
+/// C17 ground side, currying: for 0..=5 arguments, the hash computed from hashes alone (curry_tree_hash) against the tree
+/// hash of the actual curried program - built by hand as (a (q . P) (c (q . A1) (c (q . A2) ... 1))) and, for the arities
+/// the type-level argument lists allow here, by clvm_utils::CurriedProgram::to_clvm - and against the ToTreeHash encoder
+pub fn curry_ground() -> crate::eval::EvalResult {
+    use clvm_traits::{clvm_curried_args, ToClvm};
+    use clvm_utils::{curry_tree_hash, CurriedProgram, ToTreeHash, TreeHash};
+    let mut res = crate::eval::EvalResult { obligations: 0, discharged: 0, failures: vec![], samples: vec![], exhaustive: true };
+    let mut fail = |res: &mut crate::eval::EvalResult, id: String, msg: String| {
+        if res.failures.len() < 6 {
+            res.failures.push(json!({"id": format!("curry_ground/{id}"), "function": "curry_tree_hash / CurriedProgram", "message": msg,
+                "clause": "curry_tree_hash(th(P), [th(Ai)]) == tree hash of the curried program",
+                "cex": {"unit": "eval", "function": "curry_ground", "input": {"id": id}}}));
+        }
+    };
+    // programs and arguments: atoms at encoding boundaries and small trees
+    let progs: Vec<Value> = vec![json!("02"), json!(""), json!(["01", "80"]), json!([["02", "05"], ["0b", ["11", "00800000"]]])];
+    let args: Vec<Value> = vec![json!(""), json!("01"), json!("80"), json!(["01", "02"]), json!("00800000"), json!([["ff", ""], "deadbeef"])];
+    for (pi, pv) in progs.iter().enumerate() {
+        for n in 0..=5usize {
+            res.obligations += 1;
+            let mut a = Allocator::new();
+            let mut made = vec![];
+            let p = build(&mut a, pv, &mut made);
+            let arg_nodes: Vec<NodePtr> = (0..n).map(|i| { let mut m = vec![]; build(&mut a, &args[(pi + i) % args.len()], &mut m) }).collect();
+            // (c (q . A) rest) chains ending in the atom 1
+            let one = a.new_atom(&[1]).unwrap();
+            let q = one;
+            let c = a.new_atom(&[4]).unwrap();
+            let op_a = a.new_atom(&[2]).unwrap();
+            let nil = a.nil();
+            let mut chain = one;
+            for an in arg_nodes.iter().rev() {
+                let qa = a.new_pair(q, *an).unwrap();
+                let t = a.new_pair(chain, nil).unwrap();
+                let t = a.new_pair(qa, t).unwrap();
+                chain = a.new_pair(c, t).unwrap();
+            }
+            let qp = a.new_pair(q, p).unwrap();
+            let t = a.new_pair(chain, nil).unwrap();
+            let t = a.new_pair(qp, t).unwrap();
+            let curried = a.new_pair(op_a, t).unwrap();
+            let want = th(&a, curried);
+            let hashes: Vec<TreeHash> = arg_nodes.iter().map(|x| TreeHash::new(th(&a, *x))).collect();
+            let got = curry_tree_hash(TreeHash::new(th(&a, p)), &hashes).to_bytes();
+            let mut ok = true;
+            if got != want { ok = false; fail(&mut res, format!("program-{pi}/args-{n}/from-hashes"), format!("curry_tree_hash with {n} argument(s) = {} ; tree hash of the curried program = {}", hex::encode(got), hex::encode(want))); }
+            if tree_hash(&a, curried).to_bytes() != want { ok = false; fail(&mut res, format!("program-{pi}/args-{n}/tree-hash"), "tree_hash of the curried program differs from the definition".into()); }
+            // the typed constructor, where the arity is expressible here
+            let typed: Option<Result<NodePtr, clvm_traits::ToClvmError>> = match n {
+                0 => Some(CurriedProgram { program: p, args: clvm_curried_args!() }.to_clvm(&mut a)),
+                1 => Some(CurriedProgram { program: p, args: clvm_curried_args!(arg_nodes[0]) }.to_clvm(&mut a)),
+                2 => Some(CurriedProgram { program: p, args: clvm_curried_args!(arg_nodes[0], arg_nodes[1]) }.to_clvm(&mut a)),
+                3 => Some(CurriedProgram { program: p, args: clvm_curried_args!(arg_nodes[0], arg_nodes[1], arg_nodes[2]) }.to_clvm(&mut a)),
+                _ => None,
+            };
+            if let Some(t) = typed {
+                match t {
+                    Ok(node) if th(&a, node) == want => {}
+                    _ => { ok = false; fail(&mut res, format!("program-{pi}/args-{n}/curried-program"), format!("CurriedProgram::to_clvm with {n} argument(s) is not the curried program (a (q . P) (c (q . A) ...))")); }
+                }
+            }
+            // the hash-only encoder: currying tree hashes gives the same digest
+            let th_p = TreeHash::new(th(&a, p));
+            let enc = match n {
+                0 => Some(CurriedProgram { program: th_p, args: clvm_curried_args!() }.tree_hash()),
+                1 => Some(CurriedProgram { program: th_p, args: clvm_curried_args!(hashes[0]) }.tree_hash()),
+                2 => Some(CurriedProgram { program: th_p, args: clvm_curried_args!(hashes[0], hashes[1]) }.tree_hash()),
+                _ => None,
+            };
+            if let Some(e) = enc {
+                if e.to_bytes() != want { ok = false; fail(&mut res, format!("program-{pi}/args-{n}/tree-hasher"), format!("ToTreeHash of CurriedProgram over hashes with {n} argument(s) differs from the tree hash of the curried program")); }
+            }
+            if ok { res.discharged += 1; }
+        }
+    }
+    res.samples.push(json!({"obligation": format!("{} ground comparisons: {} programs x 0..=5 arguments: curry_tree_hash / CurriedProgram::to_clvm / ToTreeHash vs the hand-built curried tree", res.obligations, progs.len()), "backend": "native-eval"}));
+    res
+}
+
+pub fn replay_curry(input: &Value) -> (bool, String) {
+    let r = curry_ground();
+    let id = input["id"].as_str().unwrap_or("");
+    for f in &r.failures { if f["cex"]["input"]["id"].as_str() == Some(id) { return (true, f["message"].as_str().unwrap_or("").to_string()); } }
+    (false, format!("{id}: agrees"))
+}
